@@ -338,6 +338,19 @@ func newProxy(target string) (*proxy, error) {
 	return p, nil
 }
 
+// cut resets every connection through the proxy but keeps accepting new ones (a network outage that ends)
+func (p *proxy) cut() {
+	p.mu.Lock()
+	for _, c := range p.conns {
+		if tc, ok := c.(*net.TCPConn); ok {
+			tc.SetLinger(0)
+		}
+		c.Close()
+	}
+	p.conns = nil
+	p.mu.Unlock()
+}
+
 // sever cuts every connection through the proxy and refuses new ones
 func (p *proxy) sever() {
 	p.l.Close()
